@@ -116,6 +116,18 @@ def sizer_selection(ctx):
             b = eh[0].args
             ok = ok and b.get('broker') == A('self', 'broker') and b.get('broker_portfolio_id') == A('self', 'broker_portfolio_id') and b.get('submit_orders') == A('self', 'submit_orders') and \
                 b.get('execution_algo') is not None and b['execution_algo'][0] == 'call' and b['execution_algo'][1] == ('fn', 'MarketOrderExecutionAlgorithm')
+        if not ok and len(pcm) == 1 and len(eh) == 1:
+            # which argument deviates?  One that is produced by something the rule does not read (a factory looked up by name, a partial, a registry) is left open
+            opt_ = pcm[0].args.get('optimiser')
+            parts_ = [t_ for t_ in (opt_, pcm[0].args.get('order_sizer'), eh[0].args.get('execution_algo')) if t_ is not None]
+            unread_ = [t_ for t_ in parts_ if any(s_[0] in ('havoc', 'lc') or (s_[0] == 'call' and (s_[1] == ('ext', 'APPLY') or (s_[1][0] == 'ext' and s_[1][1] == 'functools.partial')
+                                                                                                  or (s_[1][0] == 'fn' and s_[1][1] not in ('FixedWeightPortfolioOptimiser', 'MarketOrderExecutionAlgorithm')
+                                                                                                      and 'QuantTradingSystem._create_order_sizer' not in s_[1][1])))
+                                                  for s_ in T.subterms(t_))]
+            if unread_:
+                ctx.undecided('C08.wiring', 'construction model = (session broker, portfolio, universe, alpha model, selected sizer, fixed-weight optimiser); execution = market orders',
+                              ctx.fn(qn).site(), 'a component is produced by %s, which the rule does not read' % fmt(unread_[0])[:100])
+                continue
         ctx.require(ok, 'C08.wiring', 'construction model = (session broker, portfolio, universe, alpha model, selected sizer, fixed-weight optimiser); execution = market orders', ctx.fn(qn).site(),
                     key='C08.wiring|models')
     ps = summarise(ctx, 'MarketOrderExecutionAlgorithm.__call__', policy=no_inline)
